@@ -776,3 +776,98 @@ pub fn run_h3(ctx: &mut Ctx) {
         ctx.emit(&q, &ans);
     }
 }
+
+/// C10 with a SOCKS5 upstream: the real `Socks5Forwarder` (nothing scripted) against a loopback SOCKS5 server that
+/// answers the CONNECT request with every reply code, with a code that is none, with a closed connection; requests
+/// over HTTP/1.1 and HTTP/2, to names and literals. Real sockets, real clock.
+pub fn run_socks(ctx: &mut Ctx) {
+    use std::io::{Read, Write};
+    use std::sync::atomic::{AtomicU8, Ordering};
+    use std::time::Duration;
+    quiet_panics();
+    // what the upstream does with the next request: 0..=255 reply code, the flags below
+    static REPLY: AtomicU8 = AtomicU8::new(0);
+    static CLOSE: std::sync::atomic::AtomicBool = std::sync::atomic::AtomicBool::new(false);
+    static BADVER: std::sync::atomic::AtomicBool = std::sync::atomic::AtomicBool::new(false);
+    let l = std::net::TcpListener::bind("127.0.0.1:0").unwrap();
+    let proxy = l.local_addr().unwrap();
+    std::thread::spawn(move || {
+        for s in l.incoming() {
+            let Ok(mut s) = s else { continue };
+            std::thread::spawn(move || {
+                let _ = s.set_read_timeout(Some(Duration::from_secs(2)));
+                let mut buf = [0u8; 600];
+                let Ok(n) = s.read(&mut buf) else { return };
+                if n < 3 {
+                    return;
+                }
+                let _ = s.write_all(&[5, 0]);
+                let Ok(n) = s.read(&mut buf) else { return };
+                if n < 7 || CLOSE.load(Ordering::SeqCst) {
+                    return;
+                }
+                let ver = if BADVER.load(Ordering::SeqCst) { 4 } else { 5 };
+                let _ = s.write_all(&[ver, REPLY.load(Ordering::SeqCst), 0, 1, 0, 0, 0, 0, 0, 0]);
+                // a granted connection stays open for a moment (the tunnel is up)
+                std::thread::sleep(Duration::from_millis(150));
+            });
+        }
+    });
+    let settings = Settings::builder()
+        .listen_address(("127.0.0.1", 1))
+        .unwrap()
+        .listen_protocols(ListenProtocolSettings { http1: Some(Http1Settings::builder().build()), http2: Some(Http2Settings::builder().build()), quic: None })
+        .forwarder_settings(ForwardProtocolSettings::Socks5(Socks5ForwarderSettings::builder().server_address(proxy).unwrap().build().unwrap()))
+        .build()
+        .unwrap();
+    let hosts = TlsHostsSettings::builder()
+        .main_hosts(vec![TlsHostInfo { hostname: "localhost".into(), cert_chain_path: FIXTURE_PEM.into(), private_key_path: FIXTURE_PEM.into(), allowed_sni: vec![] }])
+        .build()
+        .unwrap();
+    let core = Core::new(settings, None, hosts, Shutdown::new()).unwrap();
+    let rt = tokio::runtime::Builder::new_multi_thread().worker_threads(2).enable_all().build().unwrap();
+    trusttunnel::verif::hooks::reset();
+    let mut answers: Vec<(String, u8, bool, bool)> = (0u8..=9).map(|r| (r.to_string(), r, false, false)).collect();
+    for r in [0x10u8, 0x7f, 0xff] {
+        answers.push(("malformed".into(), r, false, false)); // not a reply code: a protocol error
+    }
+    answers.push(("closed".into(), 0, true, false));
+    answers.push(("malformed".into(), 0, false, true));
+    let dests = ["unreachable.example:443", "203.0.113.9:443", "[2001:db8::9]:8443"];
+    for (what, rep, close, badver) in &answers {
+        for dest in dests {
+            for proto in ["h1", "h2"] {
+                REPLY.store(*rep, Ordering::SeqCst);
+                CLOSE.store(*close, Ordering::SeqCst);
+                BADVER.store(*badver, Ordering::SeqCst);
+                let (status, headers, n_final) = if proto == "h1" {
+                    let raw = format!("CONNECT {} HTTP/1.1\r\nHost: {}\r\n\r\n", dest, dest).into_bytes();
+                    let core2 = &core;
+                    let out = rt.block_on(async move { tokio::time::timeout(Duration::from_secs(5), h1_session(core2, "localhost", None, raw, 120)).await }).unwrap_or_default();
+                    let finals = String::from_utf8_lossy(&out).matches("HTTP/1.1 ").count();
+                    let (st, hs, _) = parse_resp_h1(&out);
+                    (st, hs, finals)
+                } else {
+                    let req = VReq { method: "CONNECT".into(), target: dest.to_string(), headers: vec![], body: vec![] };
+                    let core2 = &core;
+                    let out = rt
+                        .block_on(async move { tokio::time::timeout(Duration::from_secs(5), h2_session(core2, "localhost", None, vec![req], 1, 120)).await })
+                        .unwrap_or_default();
+                    match out.first() {
+                        Some(r) => (r.status, r.headers.iter().map(|(k, v)| (k.to_lowercase(), v.clone())).collect(), out.len()),
+                        None => (0, HashMap::new(), 0),
+                    }
+                };
+                if n_final != 1 {
+                    ctx.oracle_failure(
+                        "final_responses",
+                        &format!("CONNECT {} over {} through a SOCKS5 upstream answering {} (REP {:#04x}): {} final responses", dest, proto, what, rep, n_final),
+                    );
+                }
+                ctx.emit(&format!("c10 socks {}", what), &resp_tok(status, &headers));
+                ctx.stat(&format!("socks_upstream_{}", proto));
+            }
+        }
+    }
+    trusttunnel::verif::hooks::reset();
+}
